@@ -89,7 +89,7 @@ static void big(void) {
 void prop_enumerate(void) {
   const char *mode = vx_arg("mode", "tiny");
   if (!strcmp(mode, "tiny")) rk_enumerate(1 << F_TINY, vx_tier ? 18 : 14, 0, on_spec, NULL);
-  else if (!strcmp(mode, "lift")) rk_enumerate(1 << F_LIFT, 0, vx_tier ? 12 : 8, on_spec, NULL);
+  else if (!strcmp(mode, "lift")) rk_enumerate(1 << F_LIFT, 0, vx_tier ? 11 : 8, on_spec, NULL);
   else if (!strcmp(mode, "struct")) rk_enumerate((1 << F_ECH) | (1 << F_RK) | (1 << F_BND) | (1 << F_HYB), 0, 0, on_spec, NULL);
   else if (!strcmp(mode, "big")) big();
   else if (!strcmp(mode, "rec")) rk_enumerate((1 << F_REC) | (1 << F_RECW), 0, 0, on_spec, NULL); /* rank profiles that drive the block-recursive PLE behind the PLUQ-based routes */
